@@ -153,6 +153,7 @@ func VH_C08_onChangeConfig_drops() {
 	}
 	t := changeConfig{task: newTask(), newConf: nc}
 	vWatchConfigAppends(r, l)
+	vRequested = &t.newConf
 	l.onChangeConfig(t)
 	if len(vCfgAppends) > 0 {
 		vReach("accepted")
